@@ -91,7 +91,8 @@ def judgeSctpServe (d : DictRt) (fin : Fin) (cn : String) (chunkTok : String) (i
   let ids := streamIds chunks
   let s0 : SS := { bufs := fun _ => [], chunks := chunks, fin := fin }
   let hs := impl.filterMap (fun t => if t.startsWith "h:" then parseTagged (t.drop 2).toString else none)
-  let model := simulate dfn ids s0 (hs.map (·.1)) [] (chunks.length * 200 + 10)
+  let endAt := ((kvNat impl "at").map (fun x => [x])).getD []
+  let model := simulate dfn ids s0 (hs.map (·.1) ++ endAt) [] (chunks.length * 200 + 10)
   -- every request is answered on the stream it arrived on, with the Diameter PPID
   let isReq := fun (σ id : Nat) =>
     match (splitMsgs dfn 1000 (bytesOf chunks σ) fin).find? (fun m => m.hdr.hbh = id) with
@@ -102,7 +103,8 @@ def judgeSctpServe (d : DictRt) (fin : Fin) (cn : String) (chunkTok : String) (i
     | some (σ, id) => if isReq σ id then [s!"h:{σ}:{id}", s!"w:{σ % 65536}:{id}:46"] else [s!"h:{σ}:{id}"]
     | none => [])
   let cnWant := if cn = "none" then "none" else "closed"
-  let modelOut := " ".intercalate (modelEvents ++ ["end=closed", s!"cn={cnWant}"])
+  -- the pinned stream at the end is the implementation's own report (the oracle value)
+  let modelOut := " ".intercalate (modelEvents ++ ["end=closed", s!"cn={cnWant}"] ++ (impl.filter (·.startsWith "at=")))
   Id.run do
     let mut fails := perStreamVerdict dfn chunks fin hs false
     -- replies: each `w` follows its `h` with the same stream and id
